@@ -952,17 +952,6 @@ func (this *encodingTask) encode(res *encodingTaskResult) {
 		evt := kanzi.NewEvent(kanzi.EVT_AFTER_ENTROPY, int(this.currentBlockID),
 			int64((written+7)>>3), checksum, hashType, time.Now())
 		notifyListeners(this.listeners, evt)
-
-		if v, hasKey := this.ctx["verbosity"]; hasKey {
-			blockOffset := this.obs.Written()
-
-			if v.(uint) > 4 {
-				msg := fmt.Sprintf("{ \"type\":\"%s\", \"id\":%d, \"offset\":%d, \"skipFlags\":%.8b }",
-					"BLOCK_INFO", int(this.currentBlockID), blockOffset, skipFlags)
-				evt1 := kanzi.NewEventFromString(kanzi.EVT_BLOCK_INFO, int(this.currentBlockID), msg, time.Now())
-				notifyListeners(this.listeners, evt1)
-			}
-		}
 	}
 
 	verifHook(this.ctx, VH_E_WAIT, this.currentBlockID, 0, 0, nil)
@@ -986,6 +975,20 @@ func (this *encodingTask) encode(res *encodingTaskResult) {
 	}
 
 	verifHook(this.ctx, VH_E_SEEN, this.currentBlockID, int64(this.currentBlockID-1), 0, nil)
+
+	if len(this.listeners) > 0 {
+		if v, hasKey := this.ctx["verbosity"]; hasKey {
+			// The shared bitstream can only be queried by the task whose turn it is
+			blockOffset := this.obs.Written()
+
+			if v.(uint) > 4 {
+				msg := fmt.Sprintf("{ \"type\":\"%s\", \"id\":%d, \"offset\":%d, \"skipFlags\":%.8b }",
+					"BLOCK_INFO", int(this.currentBlockID), blockOffset, skipFlags)
+				evt1 := kanzi.NewEventFromString(kanzi.EVT_BLOCK_INFO, int(this.currentBlockID), msg, time.Now())
+				notifyListeners(this.listeners, evt1)
+			}
+		}
+	}
 
 	// Emit block size in bits (max size pre-entropy is 1 GB = 1 << 30 bytes)
 	lw := uint(3)
